@@ -278,7 +278,7 @@ func (e *Exec) checkGauges() {
 			if e.deferred == nil {
 				e.deferred = &Violation{Prop: e.c.Prop, Class: "gauges-zero-but-dirty", OpIdx: e.opIdx,
 					Detail: e.detail(map[string]string{"symptom": "gauges-zero-but-dirty", "diff": d, "pendingStructuralOnly": "true"}),
-					Msg: fmt.Sprintf("CurDirtyOps/Bytes/Segments are all zero after %d batches, but the lower level does not hold them all: %s", n, d)}
+					Msg:    fmt.Sprintf("CurDirtyOps/Bytes/Segments are all zero after %d batches, but the lower level does not hold them all: %s", n, d)}
 			}
 			return
 		}
